@@ -157,6 +157,19 @@ func (fr *Frame) resultVal(tp *types.Tuple, hint string) Val {
 
 func (fr *Frame) unknownCallFn(ins ssa.Instruction, fn *ssa.Function, args []Val, st *State, reach Term) (Val, *State) {
 	key := funcKey(fn)
+	// diagnostic output (fmt / log printing, runtime debug helpers) does not touch the modelled heap: no havoc, the
+	// results are unconstrained. Listed as an assumption like any other callee without contract.
+	if fn.Pkg != nil && fn.Pkg.Pkg != nil {
+		switch fn.Pkg.Pkg.Path() {
+		case "fmt", "log":
+			n := fn.Name()
+			if strings.HasPrefix(n, "Print") || strings.HasPrefix(n, "Fprint") || strings.HasPrefix(n, "Sprint") || strings.HasPrefix(n, "Fatal") == false && strings.HasPrefix(n, "Log") {
+				fr.v.assumedCallees[key] = true
+				fr.note("call to " + key + ": diagnostic output, assumed not to touch the modelled heap")
+				return fr.resultVal(fn.Signature.Results(), "ret"), st
+			}
+		}
+	}
 	ms := fr.v.modOf(fn)
 	fr.v.assumedCallees[key] = true
 	if ms.all {
